@@ -134,6 +134,9 @@ theorem Equiv.dup2 {a b : FdTable} (h : Equiv a b) (src dst : Fd) :
   cases b.get src with
   | none => exact .inl ⟨rfl, rfl⟩
   | some e =>
+    by_cases hsd : src = dst
+    · simp only [hsd, ↓reduceIte]; exact .inr ⟨_, _, rfl, rfl, h⟩
+    simp only [hsd, ↓reduceIte]
     cases b.inLimit dst with
     | false => exact .inl ⟨rfl, rfl⟩
     | true => exact .inr ⟨_, _, rfl, rfl, h.put _ _⟩
